@@ -214,7 +214,7 @@ def apply_real(app, op):
                 if op[3]:
                     short(rule, overwrite=True)(h)
                 else:
-                    short(rule, h)
+                    short(rule, callback=h)     # (a positional callback collides with the bound method= of the shortcut: TypeError, not judged)
                 return 'ok'
             app.route(rule, spec, h, overwrite=op[3])
             return 'ok'
